@@ -93,8 +93,14 @@ def check_occurrence_tables(ctx):
     res.floor('R-ORD count-vs-min sites', n_sites, 2)
     # ---------------------------------------------------------------- choice: count dispatch 0 / 1
     ch = sm.func(None, '_check_if_choice_requires_elements', T.M_CONTAINER)
-    disp = [n for n in ast.walk(ch.node) if isinstance(n, ast.If) and isinstance(n.test, ast.Compare) and _count_texts(n.test)
-            and isinstance(n.test.comparators[0], ast.Constant)]
+    def _is_count_test(t):
+        if isinstance(t, ast.Compare) and _count_texts(t) and isinstance(t.comparators[0], ast.Constant):
+            return True
+        # `if not <x>.xml_elements` / `if <x>.xml_elements`: the count compared with 0
+        while isinstance(t, ast.UnaryOp) and isinstance(t.op, ast.Not):
+            t = t.operand
+        return isinstance(t, ast.Attribute) and t.attr in ('xml_elements', '_xml_elements')
+    disp = [n for n in ast.walk(ch.node) if isinstance(n, ast.If) and _is_count_test(n.test)]
     heads = [n for n in disp if not any(n in ast.walk(o) and n is not o and n in getattr(o, 'orelse', []) for o in disp)]
     if not heads:
         raise AnalysisError(f"{ch.fq}: the count dispatch of a required choice leaf vanished (idiom not understood)")
@@ -109,7 +115,13 @@ def check_occurrence_tables(ctx):
     if block is None:
         raise AnalysisError(f"{ch.fq}: the count dispatch of a required choice leaf is not in a statement list (idiom not understood)")
     head = block[0]
-    cnt = _count_texts(head.test)[0]
+    cts = [c_ for st_ in block for c_ in _count_texts(st_)]
+    if not cts:
+        t_ = head.test
+        while isinstance(t_, ast.UnaryOp):
+            t_ = t_.operand
+        cts = [f"len({unparse(t_)})"]
+    cnt = cts[0]
     # the flag variable: the local name assigned True somewhere in the dispatch
     flag = None
     for st_ in block:
